@@ -155,7 +155,13 @@ def run(ck):
         os.path.join(vlib.ROOT, "ocaml", "bin", "c09_model"))
     thorough = ck.tier == "thorough"
     rng = ck.rng
-    fixed = {k.get("id") for k in ck.known_db if k.get("property") == "C09" and str(k.get("status", "")).startswith("fixed")}
+    # a class is tolerated only while the committed register lists it as an OPEN finding of this property
+    open_ids = {k.get("id") for k in ck.known_db if k.get("property") == "C09" and k.get("status") == "open"}
+
+    class _NotOpen:
+        def __contains__(self, fid):
+            return fid not in open_ids
+    fixed = _NotOpen()
 
     cases = []   # (extra env, args, tag)
     for c, (_id, _txt, w) in KF.items():
@@ -385,6 +391,6 @@ def run(ck):
         "through eval_with_error with stored ++ actual arguments, is established by the correspondence run in those seven positions, not by a model of the flow-control commands",
         "the command word is a registered command name made of characters other than white space, #, =, back-slash and double quote, not beginning with ':' or '!' (is_cmd)",
         "include directives cannot occur (the rebuilt line never begins with '!' for such a command word)",
-        "the unsafe classes N Q H D B P E W (and F7-A, alias of a user function) are tolerated unless known_findings.json marks them fixed",
+        "the unsafe classes N Q H D B P E W (and F7-A, alias of a user function) are tolerated only while known_findings.json lists them as open findings",
         "real predicates (equals, contains, starts_with, is_empty, two user functions) are sampled; the full argument comparison uses a capture command",
     ]
